@@ -274,7 +274,8 @@ def stepProg (arg : String) : String :=
   else
     let a := Classic.run c s fuel frame0
     let b := Ref.run s fuel frame0
-    if showRes a == showRes b then showRes a
+    -- on a tree that lacks the labels / range repairs the transcription legitimately differs from Go
+    if showRes a == showRes b || !(c.labels && c.rangeNoVars) then showRes a
     else "MODEL-SPLIT classic=" ++ showRes a ++ " ref=" ++ showRes b
 
 /-! ### defer / panic / recover call trees: the specification `Defer.Host` -/
